@@ -54,6 +54,13 @@ def outcome (r : Except Err Val) : Json :=
 
 def run (op : String) (a : Json) : Option (Except String Json) :=
   match op with
+  | "bind.parse_u" => some do
+      let Γ ← dCtx (field a "ctx")
+      let t ← dTree (field a "tree")
+      let c ← dStr (field a "clazz")
+      pure <| match parseRootU benv Γ (dCfg (field a "config")) c t with
+        | .ok (v, w) => ok (jObj [("value", jVal v), ("warnings", jNat w)])
+        | .error e => jErr e
   | "fault.document" | "fault.document.lxml" => some do
       let Γ ← dCtx (field a "ctx")
       let tok ← dTok (field a "tok")
